@@ -24,6 +24,7 @@ var commands = map[string]func(args map[string]string){
 	"notifier": cmdNotifier,
 	"callable": cmdCallable,
 	"workers":  cmdWorkers,
+	"worker":   cmdWorker,
 }
 
 // usage: harness <driver> -k v -k v ...
